@@ -126,6 +126,16 @@ pub fn build_evaluator(node: &AstNode) -> Result<Evaluator> {
   }
 }
 
+/// Returns the number as a value, or null when it is not finite: the result was outside the range of numbers.
+pub(crate) fn finite_number(number: FeelNumber) -> Value {
+  // only a finite number subtracted from itself gives zero
+  if number - number == FeelNumber::zero() {
+    Value::Number(number)
+  } else {
+    value_null!("the result is not a finite number")
+  }
+}
+
 ///
 fn build_add(lhs: &AstNode, rhs: &AstNode) -> Result<Evaluator> {
   let lhe = build_evaluator(lhs)?;
@@ -135,7 +145,7 @@ fn build_add(lhs: &AstNode, rhs: &AstNode) -> Result<Evaluator> {
     let rhv = rhe(scope) as Value;
     match lhv {
       Value::Number(lh) => match rhv {
-        Value::Number(rh) => Value::Number(lh + rh),
+        Value::Number(rh) => finite_number(lh + rh),
         value @ Value::Null(_) => value,
         _ => value_null!("addition err 1"),
       },
@@ -435,7 +445,7 @@ fn build_div(lhs: &AstNode, rhs: &AstNode) -> Result<Evaluator> {
           if rh.abs() == FeelNumber::zero() {
             value_null!("[division] division by zero")
           } else {
-            Value::Number(lh / rh)
+            finite_number(lh / rh)
           }
         }
         _ => value_null!("[division] incompatible types: {} / {}", lhv, rhv),
@@ -1138,7 +1148,7 @@ fn build_mul(lhs: &AstNode, rhs: &AstNode) -> Result<Evaluator> {
     let rhv = rhe(scope) as Value;
     match lhv {
       Value::Number(lh) => match rhv {
-        Value::Number(rh) => Value::Number(lh * rh),
+        Value::Number(rh) => finite_number(lh * rh),
         _ => value_null!("[multiplication] incompatible types: {} * {}", lhv, rhv),
       },
       value @ Value::Null(_) => value,
@@ -1554,7 +1564,7 @@ fn build_sub(lhs: &AstNode, rhs: &AstNode) -> Result<Evaluator> {
     match lhv {
       Value::Number(ref lh) => {
         if let Value::Number(ref rh) = rhv {
-          return Value::Number(*lh - *rh);
+          return finite_number(*lh - *rh);
         }
       }
       Value::DateTime(ref lh) => {
